@@ -104,6 +104,14 @@ TEXT = {
             "configurations were never trained on; post-rejection state (no labels_, predict raises)",
             "Runtime monitoring: ~5k probes per quick run (thorough adds pairwise combinations, ~13k).",
             "Domains are those of the docstrings; values the docs leave open are not probed."),
+    "C11": ("invariants at hooks (affinity handed to _batchify by fit, affinity and objective class/mode seen by "
+            "GEMINI.evaluate during training and score, KernelRIM._compute_kernel returns, kernel reaching Kauri's "
+            "find_best_split) compared with the monitor's own scikit-learn evaluation of what the parameters describe; "
+            "differential runs named vs precomputed(captured matrix) compared bit for bit",
+            "Runtime monitoring: 540 fits + ~330 differential pairs per quick run over all estimators exposing "
+            "kernel / metric / ovo / gemini / base_kernel.",
+            "Path validation histories are compared to 1e-9 (+1e-6 absolute: sqrt of round-off when an MMD vanishes), "
+            "everything else exactly."),
 }
 
 TECH_DEFAULT = "runtime monitoring: contracts/invariants at hooked call sites over generated workloads"
